@@ -1130,10 +1130,24 @@ func ruleFullSyncAwaitsEverySender(w *core.World, r *core.Report) {
 		return false
 	}
 	// where the results are awaited: a goroutine started on every way there is started "once"
+	// (the wait loop may sit in a helper that exists for this one call: it is read as part of sendRdb, and the
+	// place where the results are awaited is the block of the call through which the helper runs)
 	var waitAt *ssa.BasicBlock
-	for _, in := range core.OwnInstrs(f) {
-		if c, ok := in.(*ssa.Call); ok && isBuiltin(c, "cap") {
-			waitAt = c.Block()
+	for _, in := range core.Instrs(f) {
+		c, ok := in.(*ssa.Call)
+		if !ok || !isBuiltin(c, "cap") {
+			continue
+		}
+		blk := c.Block()
+		for blk != nil && blk.Parent() != f {
+			if call := core.ExpandedInto(blk.Parent()); call != nil {
+				blk = call.Block()
+			} else {
+				blk = nil
+			}
+		}
+		if blk != nil {
+			waitAt = blk
 		}
 	}
 	if waitAt == nil {
@@ -1198,13 +1212,7 @@ func ruleFullSyncAwaitsEverySender(w *core.World, r *core.Report) {
 	}
 	r.Check(k == int64(once) && incs == conditional, "sendRdb/awaits-every-sender", mk.Pos(), "the full sync waits for cap(result channel) results, and the capacity is ReplayRdbParallel + %d with %d conditional increment(s), while %d goroutine(s) are started once and %d conditionally besides the per-lane workers: sendRdb returns (and cancels the replay) while a worker still holds queued snapshot entries, or waits for a result nobody sends", k, incs, once, conditional)
 	// the wait loop reads cap(channel) results
-	waits := false
-	for _, in := range core.OwnInstrs(f) {
-		c, ok := in.(*ssa.Call)
-		if ok && isBuiltin(c, "cap") {
-			waits = true
-		}
-	}
+	waits := waitAt != nil
 	r.Check(waits, "sendRdb/awaits-capacity", mk.Pos(), "the number of results sendRdb waits for is not the capacity of the result channel")
 }
 
